@@ -588,6 +588,17 @@ def step (s : Sess) (line : String) : String × Sess :=
         | .panic => ("panic | -", { s with halted := true })
       | none => bad
     | _, _, _ => bad
+  | ["mem_swap", h, len, fill] =>
+    -- the caller keeps the storage of a held context and puts a fresh one of another length in its place
+    match s.dec, h.toNat?, len.toNat?, fill.toNat? with
+    | some _, some h, some len, some fill =>
+      match assocGet s.held h with
+      | some (c, old) =>
+        let st : Storage := ⟨s.nextId, old.data.take len ++ List.replicate (len - old.data.length) (UInt8.ofNat fill)⟩
+        let s := own { s with held := assocSet s.held h (c, st), nextId := s.nextId + 1 } [old]
+        (s!"ok {st.id} | -", s)
+      | none => bad
+    | _, _, _, _ => bad
   | ["mem_release", h] =>
     -- the caller gives the storage of a held context back through provision_storage
     match s.dec, h.toNat? with
